@@ -114,6 +114,35 @@ def opt_disjoint(ctx):
             pass
         else:
             out.append(bad("result", "is_disjoint returns %s" % r[:100], loc))
+    # ... and structurally (the bounded walk never reaches the give-up test, whose counter it folds): every place that
+    # makes the answer `true` is dominated by the "no more characters" edge of the scan - leaving the scan any other
+    # way (the budget running out, a `break`) cannot end in `true`
+    se_ = ctx.senv(b)
+    none_targets = []
+    scans = []
+    for sw in range(len(b.blocks)):
+        tt = b.blocks[sw]["term"]
+        if tt["k"] != "switch" or b.blocks[sw]["cleanup"]:
+            continue
+        sx = strip_ver(render(se_.switch_expr(sw)))
+        if sx.startswith(("variant(", "discr(")) and "next(" in sx:
+            nt = [tg for v, tg in tt["targets"] if v == 0]
+            none_targets += nt
+            if nt:
+                scans.append((sw, nt[0]))
+    trues = []
+    for bi, blk in enumerate(b.blocks):
+        if blk["cleanup"]:
+            continue
+        for st in blk["stmts"]:
+            if st["k"] == "assign" and st["place"]["l"] == 0 and not st["place"]["p"] and st["rv"].get("k") == "use" and st["rv"]["op"].get("k") == "const" and st["rv"]["op"].get("bool") is True:
+                trues.append(bi)
+    if trues and none_targets:
+        # for every scan that can lead to the answer: only through its own exhaustion edge
+        good = all((tb not in b.reach_from(sw)) or n == tb or b.dominates(n, tb) for tb in trues for sw, n in scans)
+        out.append(ok("true-only-through-exhaustion") if good else bad("true-only-through-exhaustion", "is_disjoint can answer true without the scan of the class having run out (a `break` or a fall-through from the give-up test reaches `true`): with more characters than the budget the classes are called disjoint unseen, and a repeat before such a class no longer backtracks ('x+.' on 'axxb xx')", b.loc(trues[0])))
+    elif trues:
+        out.append(bad("true-only-through-exhaustion", "is_disjoint answers true but the exhaustion test of its scan was not recognised", b.loc(trues[0])))
     hits = [p for p in w.paths if p.end == "return" and any(g.startswith("CodePointInversionList::contains(") for g in summarize(p)[0])]
     if hits and all(summarize(p)[1] == "false" for p in hits):
         out.append(ok("hit-is-false"))
